@@ -247,7 +247,22 @@ def require_flag(F, rep):
         rep.ob("REQUIRE", "after-preamble", first.startswith("-- Begin Sylt preamble") and first.rstrip().endswith("-- End Sylt preamble"),
                "the first thing written is the runtime preamble (include_str!)")
     inside = [n for n, a in T.arms.items() if "require" in luatpl.summary(T, n)["text_many"]]
-    rep.ob("REQUIRE", "only-once", not inside and not any("require" in str(e) for e in T.loop_tail), "no instruction arm writes a require line")
+    def only_blank(evs):
+        for e in evs:
+            if e[0] == "write":
+                if luatpl.render(e[1]).strip():
+                    return False
+            elif e[0] in ("repeat",):
+                if not only_blank(e[1]):
+                    return False
+            elif e[0] == "alt":
+                if not all(only_blank(a) for a in e[1]):
+                    return False
+            else:
+                return False
+        return True
+    rep.ob("REQUIRE", "only-once", not inside and only_blank(T.loop_head) and not any("require" in str(e) for e in T.loop_tail),
+           "inside the instruction loop nothing but indentation is written before an instruction's text and no arm writes a require line (%s)" % [e[0] for e in T.loop_head])
     # the option travels unchanged: Args.require -> compile(.., require) -> Compiler::compile -> lua::generate -> Generator::generate
     chain = [
         (LIB + "compile_with_reader_to_writer", "sylt_compiler::compile", 2, "args.require.as_ref()"),
